@@ -109,22 +109,32 @@ CLAIMED = {
             "the model's. Tied to the code by comparing bias/variance/mse with the driver; checked directly: moments at 60 "
             "digits from the exact pmf / closed-form law with the scale the SAMPLER uses, incl. live-object sequences.",
             "Trusted: Lean kernel + Mathlib; harness/contlaw.py; float cancellation validated numerically.", "§6 C19"),
-    "C03": ("Lean 4 proof: additivity/input-independence/linearity of every additive sampler as coded, rejection = first accepted "
-            "draw, law facts (threshold, uniform, exponential-of-uniform), CKS acceptance identity, staircase mixture, "
-            "post-processing + scripted-stream correspondence; unit-noise laws validated statistically at the DKW 1e-14 level",
-            "Machine-checked about the transcribed samplers: randomise x s - x is the same function of the stream for all x "
-            "and linear in the calibrated scale (Laplace, Gaussian, Uniform, Staircase, bounded-noise, discrete Gaussian, "
-            "Vector direction/norm); the batch-doubling rejection loops return the first accepted draw of the stream "
-            "(conditional law); Lebesgue-measure laws of a threshold comparison, of (2u-1)c and of -log(1-u); the CKS "
-            "acceptance identity (proposal x acceptance proportional to exp(-k^2/2 sigma^2)) and bernoulli_neg_exp's stop "
-            "law summing to e^-gamma; staircase segment/mixture density; truncation/folding/snapping are post-processing by "
-            "maps of the bounds only and inherit the inequality. PARTIAL: that the 4-uniform expression is standard "
-            "Laplace, (N1+N2)/sqrt2 normal, four Gamma(d/4) sum to Gamma(d), the sphere law, the composed CKS loop, Snapping's "
-            "and Bingham's released laws are validated statistically on every run (supporting evidence, not theorems). Tied "
-            "to the code by running every randomise on scripted streams against the driver (outputs and numbers of draws "
-            "consumed). Bingham's inverted acceptance ratio is a listed open finding (proved: bingham_accept_cex).",
-            "Trusted: Lean kernel + Mathlib; library sampler laws (normalvariate, gammavariate, numpy geometric); calibrated "
-            "scales of the root-finder mechanisms are read from the object (C02's subject).", "§6 C03"),
+    "C03": ("Lean 4 proof: the LAWS of the additive samplers as coded (push-forward of the uniform / normal / gamma product measure "
+            "under the sampler map): 4-uniform Laplace identity, (N1+N2)/sqrt2, sum of four Gamma(d/4), rejection = conditional "
+            "law, CKS acceptance; additivity/input-independence/linearity; post-processing + scripted-stream correspondence on "
+            "both RNG back-ends; statistical validation (DKW 1e-14) as supporting evidence",
+            "Machine-checked (48 theorems): the Holohan-Braghin identity — log(1-U1)cos(pi U2) + log(1-U3)cos(pi U4) pushed "
+            "forward from the uniform measure on [0,1)^4 IS the standard Laplace law (characteristic functions: each term "
+            "has 1/sqrt(1+t^2), uniqueness from charFun), hence Laplace.randomise on four uniforms has law "
+            "Laplace(x, sens/(eps-log(1-delta))), the truncated/folded mechanisms are that law pushed through truncate/fold, "
+            "and the 4-uniform SAMPLER ITSELF satisfies the (eps,delta) inequality on every measurable set (connects C02's "
+            "laplace_dp to the code's sampler); (N1+N2)/sqrt2 of independent standard normals is N(0,1) and Gaussian.randomise "
+            "has law N(x, sigma^2) (the law C02's gauss_classical_dp is about); four independent Gamma(d/4,1) scaled and "
+            "summed are Gamma(d, 1/scale) (mgf uniqueness on a half-line); over an i.i.d. stream the first accepted draw of a "
+            "rejection loop has the conditional law P(A and B)/P(A) (bounded-domain Laplace; discrete Gaussian given i.i.d. "
+            "passes: probability e^{-y^2/2 sigma^2}/sum); -log(1-U) ~ Exp(1); threshold/uniform laws; CKS acceptance identity "
+            "and bernoulli_neg_exp stop law; staircase segment/mixture density; randomise x s - x is the same function of the "
+            "stream for all x and linear in the calibrated scale; truncation/folding/snapping are post-processing by maps of "
+            "the bounds only. REMAINING (kept as `def ... : Prop`): that the CKS loop over an i.i.d. UNIFORM stream yields "
+            "i.i.d. passes (renewal argument; fuelled inner loops), the batch layout of the rejection loops, sphere "
+            "uniformity, Snapping's released law; Bingham's acceptance ratio is inverted (proved: bingham_accept_cex; open "
+            "finding). Tied to the code by running every randomise on scripted streams against the driver on BOTH back-ends "
+            "(SystemRandom script and numpy RandomState script; outputs and numbers of draws consumed), live-object sequences, "
+            "repeated evaluation of released functions; statistical law tests at the DKW 1e-14 level are supporting evidence.",
+            "Trusted: Lean kernel + Mathlib; library primitives (random() uniform, normalvariate/standard_normal normal, "
+            "gammavariate/gamma gamma, numpy geometric) have the laws their names say; calibrated scales of the root-finder "
+            "mechanisms are read from the object (C02's subject). Open findings: Bingham; six classes keep a stale scale "
+            "after a parameter assignment.", "§6 C03"),
     "C06": ("Lean 4 proof: non-interference of the release-plan DSL, instantiated for every tool and estimator plan + forced-"
             "output two-dataset experiment on the implementation",
             "Machine-checked: in a release plan data can reach a mechanism parameter, the continuation or the release only "
